@@ -268,7 +268,7 @@ def r6_thread_errors_reach_finalize(cx):
         raise AnchorLost("no JoinHandle::join in the creator")
 
 
-def r7_no_partial_write_accepted(cx):
+def r7_no_partial_write_accepted(cx, rule="R7"):
     """'all-or-nothing': `Write::write` may accept fewer bytes than it is given (a full disk, a quota, a file size limit)
     and says so in its result; a creator that calls it directly and drops the count takes a truncated file for a
     complete one, returns Ok and lets the rename publish it. Every direct `write` of the creators either uses the count
@@ -289,29 +289,38 @@ def r7_no_partial_write_accepted(cx):
             dest = b.whole_copies({t["dest"]["l"]})
             returned = 0 in dest
             vals = ok_payloads(b, i)
+            # what is computed from the count (copies, casts, arithmetic, aggregates -- not through calls or discriminants)
+            derived = set(vals)
+            changed = True
+            while changed:
+                changed = False
+                for blk2 in b.blocks:
+                    for st in blk2["s"]:
+                        if st["k"] == "assign" and st["lhs"]["l"] not in derived and st["rv"]["k"] in ("use", "cast", "bin", "un", "agg"):
+                            ops = list(rv_operands(st["rv"])) + list(st["rv"].get("fields", []) if st["rv"]["k"] == "agg" else [])
+                            if any(op_place(o) is not None and op_place(o)["l"] in derived for o in ops if isinstance(o, dict)):
+                                derived.add(st["lhs"]["l"])
+                                changed = True
+            returned = returned or 0 in derived
+            # used = it decides something (a comparison, a loop) or is handed to something that acts on it (a slice index, a
+            # position) -- summing it into a total that only travels through `?` is not a use
             used = False
             for blk2 in b.blocks:
                 if blk2.get("cleanup"):
                     continue
-                for st in blk2["s"]:
-                    if st["k"] == "assign":
-                        for o in list(rv_operands(st["rv"])) + list(st["rv"].get("fields", []) if st["rv"]["k"] == "agg" else []):
-                            pl = op_place(o) if isinstance(o, dict) else None
-                            if pl is not None and pl["l"] in vals and st["lhs"]["l"] not in vals:
-                                used = True
                 t2 = blk2["t"]
-                if t2["k"] == "call":
+                if t2["k"] == "call" and not call_is(t2, r"Try>::branch$", r"from_residual$", r"From<.*>>::from$", r"Into<.*>>::into$"):
                     for a in t2["args"]:
                         pl = op_place(a)
-                        if pl is not None and pl["l"] in vals:
+                        if pl is not None and pl["l"] in derived:
                             used = True
                 elif t2["k"] == "switch":
                     pl = op_place(t2["op"])
-                    if pl is not None and pl["l"] in vals:
+                    if pl is not None and pl["l"] in derived:
                         used = True
-            cx.ob("R7", "R7/%s/write-count-used" % re.sub(r"<.*?>", "", f["name"]).split("::")[-1], returned or used, f,
+            cx.ob(rule, rule + "/%s/write-count-used" % re.sub(r"<.*?>", "", f["name"]).split("::")[-1], returned or used, f,
                   "the number of bytes accepted by Write::write at line %s is used, or the Result is returned as it is (returned: %s, count used: %s)" % (t.get("ln"), returned, used), ln=t.get("ln"))
-    cx.ob("R7", "R7/direct-writes", True, "(creator)", "%d direct calls of Write::write in the creators" % n, trivial=True)
+    cx.ob(rule, rule + "/direct-writes", True, "(creator)", "%d direct calls of Write::write in the creators" % n, trivial=True)
 
 
 RULES = [
